@@ -106,30 +106,32 @@ func (m *Model) Key() string {
 
 // FamSpec: alphabet and bounds of one search.
 type FamSpec struct {
-	Prop       string   `json:"prop"`
-	Profile    Profile  `json:"profile"`
-	Depth      int      `json:"depth"`
-	MaxGrants  int      `json:"max_grants"`
-	Grants     []Op     `json:"grants"`      // grant-creating ops allowed
-	RedeemBy   []string `json:"redeem_by"`   // owner, other, badsecret
-	RefreshBy  []string `json:"refresh_by"`  // owner, other, badsecret
-	RevokeBy   []string `json:"revoke_by"`   // owner, other, badsecret (empty: no revocation)
-	Hints      []string `json:"hints"`       // token_type_hint alphabet for revoke
-	Advances   []int    `json:"advances"`    // seconds
-	MaxGen     int      `json:"max_gen"`     // bound on refresh chain length per grant (0 = depth)
-	C09        bool     `json:"c09"`         // run the introspection variant grid in every state
+	Prop      string   `json:"prop"`
+	Profile   Profile  `json:"profile"`
+	Depth     int      `json:"depth"`
+	MaxGrants int      `json:"max_grants"`
+	Grants    []Op     `json:"grants"`     // grant-creating ops allowed
+	RedeemBy  []string `json:"redeem_by"`  // owner, other, badsecret
+	RefreshBy []string `json:"refresh_by"` // owner, other, badsecret
+	RevokeBy  []string `json:"revoke_by"`  // owner, other, badsecret (empty: no revocation)
+	Hints     []string `json:"hints"`      // token_type_hint alphabet for revoke
+	Advances  []int    `json:"advances"`   // seconds
+	MaxGen    int      `json:"max_gen"`    // bound on refresh chain length per grant (0 = depth)
+	C09       bool     `json:"c09"`        // run the introspection variant grid in every state
 }
 
 type Fam struct {
-	S     FamSpec
-	W     *World
-	M     *Model
-	Res   *WRes
-	Hist  []Op
-	quiet bool // replaying a prefix: no sweep comparison, no violations
+	S         FamSpec
+	W         *World
+	M         *Model
+	Res       *WRes
+	Hist      []Op
+	quiet     bool // replaying a prefix: no sweep comparison, no violations
 	lastClass string
 	lastObs   string
 	inSweep   bool
+	adopted   []string // tokens set to unknown-dead by the last sweep (carried to descendants)
+	adoptsIn  [][]string
 }
 
 func NewFam(s FamSpec, res *WRes) *Fam {
@@ -169,7 +171,7 @@ func (f *Fam) violate(prop, fp, what, expected string, observed any) {
 	}
 	hist := append([]Op(nil), f.Hist...)
 	f.Res.violate(Violation{Property: prop, Fingerprint: fp, What: what + " | history: " + histString(hist), Engine: "fam",
-		Case: map[string]any{"spec": f.S, "hist": hist}, Expected: expected, Observed: observed})
+		Case: map[string]any{"spec": f.S, "hist": hist, "adopts": f.adoptsIn}, Expected: expected, Observed: observed})
 }
 
 func histString(h []Op) string {
@@ -670,6 +672,7 @@ func (f *Fam) Sweep(after Op) {
 			f.violate("C09", "C09"+fp, desc, "active", o.JSON)
 			// keep going with what the implementation says
 			t.Status, t.Cause = "unknown-dead", "dontcare"
+			f.adopted = append(f.adopted, t.Name)
 		}
 	}
 }
@@ -708,26 +711,36 @@ func (f *Fam) checkPayload(t *MTok, o *Obs) {
 // ---------------------------------------------------------------- search
 
 type famJob struct {
-	Spec FamSpec `json:"spec"`
-	Hist []Op    `json:"hist"`
+	Spec   FamSpec    `json:"spec"`
+	Hist   []Op       `json:"hist"`
+	Adopts [][]string `json:"adopts,omitempty"` // per step: tokens the sweep found dead although the model had them live
 }
 type famSucc struct {
-	Op  Op     `json:"op"`
-	Key string `json:"key"`
-	Bad bool   `json:"bad,omitempty"` // the step violated the property: terminal, not extended
+	Op    Op       `json:"op"`
+	Key   string   `json:"key"`
+	Bad   bool     `json:"bad,omitempty"` // the step violated the property: terminal, not extended
+	Adopt []string `json:"adopt,omitempty"`
 }
 type famJobRes struct {
 	WRes
 	Succ []famSucc `json:"succ"`
 }
 
-func famReplay(s FamSpec, hist []Op, res *WRes, checkLast bool) *Fam {
+func famReplay(s FamSpec, hist []Op, adopts [][]string, res *WRes, checkLast bool) *Fam {
 	f := NewFam(s, res)
+	f.adoptsIn = adopts
 	f.W.Store.NoLog = true
 	for i, op := range hist {
 		last := i == len(hist)-1
 		f.quiet = !(checkLast && last)
 		f.lastClass = f.Apply(op)
+		if f.quiet && i < len(adopts) {
+			for _, n := range adopts[i] {
+				if t := f.M.tok(n); t != nil && t.Status == "live" {
+					t.Status, t.Cause = "unknown-dead", "dontcare"
+				}
+			}
+		}
 		if !f.quiet {
 			f.Sweep(op)
 			if s.C09 {
@@ -745,20 +758,20 @@ func famExpand(arg json.RawMessage) (any, error) {
 		return nil, err
 	}
 	out := &famJobRes{}
-	base := famReplay(j.Spec, j.Hist, &WRes{}, false)
+	base := famReplay(j.Spec, j.Hist, j.Adopts, &WRes{}, false)
 	ops := base.Enabled()
 	for _, op := range ops {
 		h := append(append([]Op(nil), j.Hist...), op)
 		nv := len(out.Viol)
 		stepRes := &WRes{}
-		f := famReplay(j.Spec, h, stepRes, true)
+		f := famReplay(j.Spec, h, j.Adopts, stepRes, true)
 		bad := len(stepRes.Viol) > 0
 		mergeWRes(&out.WRes, stepRes)
 		_ = nv
 		out.Trans++
 		out.Traces++
 		key := shortHash(f.W.StateKey() + "\n" + f.M.Key())
-		out.Succ = append(out.Succ, famSucc{Op: op, Key: key, Bad: bad})
+		out.Succ = append(out.Succ, famSucc{Op: op, Key: key, Bad: bad, Adopt: f.adopted})
 		cls := f.lastClass
 		out.class(cls)
 		out.sample(map[string]any{"history": histString(h), "outcome": cls})
@@ -775,7 +788,7 @@ func init() {
 		}
 		res := &WRes{}
 		// check every step: the artefact's last step is the failing one, earlier ones set the scene
-		famReplay(j.Spec, j.Hist, res, true)
+		famReplay(j.Spec, j.Hist, j.Adopts, res, true)
 		return res.Viol, nil
 	}
 }
@@ -783,8 +796,9 @@ func init() {
 // famSearch: level-synchronous breadth-first search with global deduplication.
 func famSearch(r *Run, specs []FamSpec) {
 	type node struct {
-		spec int
-		hist []Op
+		spec   int
+		hist   []Op
+		adopts [][]string
 	}
 	seen := map[string]bool{}
 	frontier := []node{}
@@ -806,7 +820,7 @@ func famSearch(r *Run, specs []FamSpec) {
 			if specs[n.spec].Depth < depth {
 				continue
 			}
-			jobs = append(jobs, famJob{Spec: specs[n.spec], Hist: n.hist})
+			jobs = append(jobs, famJob{Spec: specs[n.spec], Hist: n.hist, Adopts: n.adopts})
 			live = append(live, n)
 		}
 		res := r.Pool.Do("fam", jobs, r.Deadline)
@@ -838,7 +852,8 @@ func famSearch(r *Run, specs []FamSpec) {
 				if s.Bad {
 					continue
 				}
-				next = append(next, node{spec: live[i].spec, hist: append(append([]Op(nil), live[i].hist...), s.Op)})
+				next = append(next, node{spec: live[i].spec, hist: append(append([]Op(nil), live[i].hist...), s.Op),
+					adopts: append(append([][]string(nil), live[i].adopts...), s.Adopt)})
 			}
 		}
 		if !levelDone {
